@@ -26,14 +26,14 @@ Print Assumptions each_call_fires_exactly_once_after_loss.
     outstanding ids plus the new ones *)
 Theorem unanswered_fail_with_loss_reason : forall s, up s = true ->
   let r := step s ODisc in
-  snd r = ELost :: fst (fail_all (outA s ++ outB s) (follows s) (ncalls s))
+  snd r = ELost :: fst (fail_all (outA s ++ outB s) (follows s) (cancelled s) (ncalls s))
   /\ outA (fst r) = [] /\ outB (fst r) = [] /\ up (fst r) = false
   /\ Permutation (F (snd r)) (map snd (outA s ++ outB s) ++ seq (ncalls s) (ncalls (fst r) - ncalls s)).
 Proof. exact loss_fails_all. Qed.
 Print Assumptions unanswered_fail_with_loss_reason.
 
 (** a call made after the loss fails at once, and so does the call its errback makes *)
-Theorem calls_after_loss_fail_immediately : forall s p k f, up s = false ->
+Theorem calls_after_loss_fail_immediately : forall s p k f, up s = false -> mem (ncalls s) (cancelled s) = false ->
   let r := step s (OCall p k f) in
   up (fst r) = false /\ outA (fst r) = outA s /\ outB (fst r) = outB s /\
   (snd r = [ECall (ncalls s) k; EResult (ncalls s) RLost] \/
@@ -78,6 +78,7 @@ Print Assumptions outstanding_tags_unique.
 (** ... and an answer whose tag is outstanding resolves exactly the request filed under it *)
 Theorem answer_resolves_the_request_with_its_tag : forall s q tag n c,
   lookup tag (outs s q) = Some c ->
-  exists s1 rest, deliver_box q (BAns tag n) s = (s1, EResult c (ROk n) :: rest, false).
+  exists s1 x rest, deliver_box q (BAns tag n) s = (s1, x :: rest, false)
+                    /\ (x = EResult c (ROk n) \/ x = EAbsorbed c (ROk n)).
 Proof. exact answer_resolves_its_tag. Qed.
 Print Assumptions answer_resolves_the_request_with_its_tag.
